@@ -187,6 +187,8 @@ class FakeDevice:
             rep = {"data": self.default_reply}
         for _ in range(rep.get("delay", 0)):
             await asyncio.sleep(0)
+        if rep.get("sleep"):
+            await asyncio.sleep(rep["sleep"])       # real seconds: a slow device (used sparingly)
         hook = rep.get("hook")
         if hook is not None:
             hook()
